@@ -31,6 +31,8 @@ _GEN_TIE2["C17"] = [("BV.Props.C17Gen", "FnC17", "BrotliReverseBits, StoreStatic
     "reverse_bits_generated (equal to the model's reverseBits for every num_bits <= 16 and every u16: the while loop by induction on its iterations), store_static_code_length_code_generated (any writer), store_simple_symbols_generated + store_simple_generated (whenever the model's StoreSimpleHuffmanTree returns — it panics when the sort or the tail leaves the symbols/depths arrays — the generated double-for sort leaves the model's symbols array and the generated BrotliWriteBits list run on the same writer returns the same bits; num_symbols any usize, the NSYM 2 / 3 / 4 tails and the tree-select bit), store_huffman_tree_of_huffman_tree_generated (whenever the model returns: the codes_to_store scan, HSKIP and the per-length writes of the generated list give the model's bits)")]
 _GEN_TIE2["C18"] = [("BV.Props.C18vGen", "FnC18v", "(by-value struct mode: Command and BrotliDistanceParams as Lean structures) Log2FloorNonZero, GetInsertLengthCode, GetCopyLengthCode, combine_length_codes, PrefixEncodeCopyDistance (same terms as in FnC18, by rfl), get_length_code, BlockLengthPrefixCode, GetBlockLengthPrefixCode, Command::copy_len_code, Command::init, Command::new, Command::init_insert, GetInsertExtra / GetInsertBase / GetCopyBase / GetCopyExtra, StoreCommandExtra (Command::distance_index_and_offset is translated into the same file but its model belongs to C14 and is not tied)",
     "get_length_code_generated (insert lengths < 22594 + 2^24, copy length codes 2 .. 2118 + 2^24), block_length_prefix_code_generated (EVERY length: the while loop = the model's table walk), get_block_length_prefix_code_generated (1 .. 2^24: code, n_extra, extra), copy_len_code_generated (every u32 copy_len_ field), init_generated / command_new_generated (every field of the command: insert_len_, copy_len_ = packCopyLen, dist_prefix_ / dist_extra_ = the model's packed prefix code and extra bits, cmd_prefix_ = getLengthCode with the implicit-distance flag; NPOSTFIX <= 3, NDIRECT <= 120, distance code < 2^62, copylen < 2^25), init_insert_generated, store_command_extra_generated (the generated write list is the model's single (nbits, value) field, on every command whose lengths lie in the format's buckets)")]
+_GEN_TIE2["C20"] = [("BV.Props.C20Gen", "FnC20", "set_parameter (the free function: the `match` over BrotliEncoderParameter, whose variants the body imports with `use ...::*`, becomes a chain of tests on the discriminants read from src/enc/parameters.rs), BrotliEncoderStateStruct::set_parameter, SanitizeParams, ComputeLgBlock, EncodeWindowBits (parameter and encoder-state structs as Lean structures of their supported fields)",
+    "set_parameter_generated (EVERY parameter id — the 27 of the match and every other number — and every u32 value: the generated function returns false with the parameters untouched exactly when the model's setParamRaw refuses, otherwise true with the model's value in every field the model keeps), state_set_parameter_generated (the method refuses on an initialised encoder, otherwise it is the free function on self.params: the model's setParameter), sanitize_generated and compute_lg_block_generated (every parameter structure, against BV.Stream.sanitize / computeLgBlock), encode_window_bits_generated (8 <= lgwin < 64, both forms, against BV.Stream.encodeWindowBits)")]
 _GEN_TIE_LIST = {}
 for _pid, (_mod, _fns, _ths) in _GEN_TIE.items():
     _GEN_TIE_LIST.setdefault(_pid, []).append((_mod, "Fn" + _mod[-6:-3], _fns, _ths))
@@ -61,3 +63,6 @@ if "C15" in PROPS:
     PROPS["C15"]["level_note"] = PROPS["C15"]["level_note"].replace(
         "model = code is checked on the full grid on every run, not proved.",
         "model = code is checked on the full grid on every run; in addition SanitizeParams, ComputeLgBlock, ComputeRbBits, EncodeWindowBits, update_size_hint, encode_base_128 and BrotliWriteMetadataMetaBlock are PROVED equal to the Lean definitions generated from their current Rust text by tools/rs2lean.py (BV.Props.C15Gen; trusted: the translator), while ensure_initialized, the head of encode_data, the q0/q1 dispatch and store_uncompressed_meta_block remain tied by the grid only.")
+
+if "C20" in PROPS:
+    PROPS["C20"]["level_note"] = PROPS["C20"]["level_note"] + (" set_parameter (free function and method), SanitizeParams, ComputeLgBlock and EncodeWindowBits of the model are in addition PROVED equal to the Lean definitions generated from the current Rust text (BV.Props.C20Gen; trusted: tools/rs2lean.py); the theorem set_parameter_table of C20 therefore speaks about the real parameter table, not only about a hand copy of it.")
